@@ -106,6 +106,7 @@ REQUIRE = {
     "face_shapes_last_axis_longest": 4,
     "face_kernel_calls_scalar_python_float": 8,
     "face_kernel_calls_scalar_real_t": 8,
+    "kernel_calls_on_reused_scratch_object": 16,
     "kernel_sum_checks": 60,
     **{f"faces_{d}d_ax{a}_{p}": 100 for d in (2, 3) for a in range(d) for p in PATTERNS},
 }
@@ -621,6 +622,20 @@ def _kern(sh, rec):
                     continue
                 S = pref * 4 * d * float(np.abs(f.astype(np.float64)).sum())
                 sumcheck("diffusion-flux-sum!=0", f"diffusion_flux_{d}d", flux.astype(np.float64).sum(), S, meta, {"f": f}, (d, sh["dtype"], "diffusion", reset, kind))
+                if reset:
+                    # the SAME flux array object again, overwritten with garbage (ring included): the 2nd and 3rd call on an
+                    # already-seen array must reset its ghost ring just like the first
+                    for again in (2, 3):
+                        f2 = _compact(rng, shape, m, kinds[(rep + again) % len(kinds)], real_t)
+                        flux[...] = (rng.standard_normal(shape) * 1e3).astype(real_t)
+                        try:
+                            k(diffusion_flux=flux, field=f2, prefactor=pref)
+                        except Exception as e:
+                            rec.violation("diffusion-flux-raises", f"{type(e).__name__}: {e} {meta}", {"meta": meta})
+                            break
+                        rec.count("kernel_calls_on_reused_scratch_object")
+                        S2 = pref * 4 * d * float(np.abs(f2.astype(np.float64)).sum())
+                        sumcheck("diffusion-flux-sum!=0", f"diffusion_flux_{d}d", flux.astype(np.float64).sum(), S2, {**meta, "call_on_same_flux_array": again}, {"f": f2}, (d, sh["dtype"], "diffusion", reset, "reused-array"))
                 if kv is not None:
                     fv = _compact(rng, shape, m, kind, real_t, (3,))
                     fl = (rng.standard_normal((3, *shape)) * 1e3).astype(real_t) if reset else np.zeros((3, *shape), real_t)
